@@ -520,6 +520,103 @@ pub fn hist_cases(cfg: &Cfg, unchecked: bool, strict_end: bool) -> Vec<Case> {
         .collect()
 }
 
+/// a history on a vector longer than 2^32 bits (positions, lengths and counts that do not fit 32 bits):
+/// 2^32 + 2^27 + 333 zeros, ~1100 bits set by `set`, then pushes, `append_bits`, a positions-`extend`; oracle = the sorted
+/// list of set positions. Only position-based observations (the per-bit iterators would take minutes).
+fn run_giant_history(rep: &mut Rep, seed: u64) {
+    let n0: usize = (1usize << 32) + (1 << 27) + 333;
+    let mut rng = Rng::new(seed);
+    let mut bvm = BitVectorMut::new();
+    chk!(rep, "op:extend_with_zeros", n0, Exp::AnyVal, bvm.extend_with_zeros(n0));
+    let mut occ: Vec<usize> = vec![0, 5, 63, 64, (1 << 31) - 1, 1 << 31, (1 << 32) - 65, (1 << 32) - 64, (1 << 32) - 2, (1 << 32) - 1, 1 << 32, (1 << 32) + 1, (1 << 32) + 63, (1 << 32) + 64, (1 << 32) + 511, (1 << 32) + 512, n0 - 1];
+    let mut p = 1usize << 20;
+    while p < n0 - 10 {
+        occ.push(p + rng.usize_below(1 << 19));
+        p += (1 << 22) + rng.usize_below(1 << 20);
+    }
+    occ.sort_unstable();
+    occ.dedup();
+    for &p in &occ {
+        if chk!(rep, "op:set", p, Exp::AnyVal, bvm.set(p, true)).is_panic() {
+            return;
+        }
+    }
+    // grow past the end: single bits, a word, positions
+    let mut n = n0;
+    for b in [true, false, true] {
+        bvm.push(b);
+        if b {
+            occ.push(n);
+        }
+        n += 1;
+    }
+    chk!(rep, "op:append_bits", (0b1011u64, 4), Exp::AnyVal, bvm.append_bits(0b1011, 4));
+    occ.extend([n, n + 1, n + 3]);
+    n += 4;
+    let far = [n + 70, n + 71, n + 1000];
+    chk!(rep, "op:extend(positions)", format!("{:?}", far), Exp::AnyVal, bvm.extend(far.iter().copied()));
+    occ.extend(far);
+    n = far[2] + 1;
+    let is_one = |p: usize| occ.binary_search(&p).is_ok();
+    let rank1 = |p: usize| occ.partition_point(|&o| o < p);
+    macro_rules! observe {
+        ($b:expr, $name:expr) => {{
+            let b = $b;
+            chk!(rep, "len", $name, Exp::Is(n), b.len());
+            chk!(rep, "count_ones", $name, Exp::Is(occ.len()), b.count_ones());
+            chk!(rep, "count_zeros", $name, Exp::Is(n - occ.len()), b.count_zeros());
+            let mut probes: Vec<usize> = vec![0, 1, (1 << 32) - 3, (1 << 32) - 2, (1 << 32) - 1, 1 << 32, (1 << 32) + 1, (1 << 32) + 2, n0 - 1, n0, n - 1];
+            probes.extend(occ.iter().step_by(37).copied());
+            for _ in 0..200 {
+                probes.push(rng.usize_below(n));
+            }
+            for &p in &probes {
+                chk!(rep, "get", ($name, p), Exp::Is(Some(is_one(p))), b.get(p));
+            }
+            for p in [n, n + 1, 1usize << 33, usize::MAX] {
+                chk!(rep, "get", ($name, p), Exp::Is(None), b.get(p));
+            }
+            // multi-bit and whole-word reads across the 2^32 boundary and near the far end
+            for (st, len) in [((1usize << 32) - 3, 7usize), ((1 << 32) - 64, 64), ((1 << 32) - 1, 64), (1 << 32, 64), ((1 << 32) + 1, 3), (n0 - 30, 45), (n - 70, 64)] {
+                let exp: u64 = (0..len).map(|j| (is_one(st + j) as u64) << j).sum();
+                chk!(rep, "get_bits", ($name, st, len), Exp::Is(Some(exp)), b.get_bits(st, len));
+            }
+            for w in [0usize, (1 << 26) - 1, 1 << 26, (1 << 26) + 1, (n - 1) / 64] {
+                let exp: u64 = (0..64).map(|j| ((w * 64 + j < n && is_one(w * 64 + j)) as u64) << j).sum();
+                chk!(rep, "get_word", ($name, w), Exp::Is(exp), b.get_word(w));
+            }
+            // position iterators: all ones from the start, from positions around 2^32; zeros: a prefix from such positions
+            chk!(rep, "ones", $name, Exp::Is(true), b.ones().eq(occ.iter().copied()));
+            for p in [(1usize << 32) - 70, (1 << 32) - 2, (1 << 32) - 1, 1 << 32, (1 << 32) + 1, (1 << 32) + 65, n0 - 1, n - 1, n] {
+                let k = rank1(p);
+                chk!(rep, "ones_with_pos", ($name, p), Exp::Is(true), b.ones_with_pos(p).eq(occ[k..].iter().copied()));
+                let ez: Vec<usize> = (p..n).filter(|&q| !is_one(q)).take(40).collect();
+                chk!(rep, "zeros_with_pos", ($name, p), Exp::Is(ez.clone()), b.zeros_with_pos(p).take(40).collect::<Vec<usize>>());
+            }
+            chk!(rep, "zeros", $name, Exp::Is((0..200usize).filter(|&q| !is_one(q)).take(100).collect::<Vec<usize>>()), b.zeros().take(100).collect::<Vec<usize>>());
+        }};
+    }
+    observe!(&bvm, "BitVectorMut");
+    let bv = BitVector::from(bvm);
+    observe!(&bv, "BitVector::from(BitVectorMut)");
+    drop(bv);
+    // collecting positions beyond 2^32 (a 512 MiB vector from three numbers)
+    let pos = [3usize, (1 << 32) + 7, (1 << 32) + 64];
+    let v: BitVector = pos.iter().copied().collect();
+    chk!(rep, "len", "collect(positions)", Exp::Is(pos[2] + 1), v.len());
+    chk!(rep, "ones", "collect(positions)", Exp::Is(pos.to_vec()), v.ones().collect::<Vec<usize>>());
+    chk!(rep, "ones_with_pos", ("collect(positions)", 1usize << 32), Exp::Is(pos[1..].to_vec()), v.ones_with_pos(1 << 32).collect::<Vec<usize>>());
+    rep.gate_max("giant_n", n as u64);
+    rep.nontrivial();
+}
+
 pub fn cases_c08(cfg: &Cfg) -> Vec<Case> {
-    hist_cases(cfg, false, true)
+    let mut out = hist_cases(cfg, false, true);
+    // one history beyond 2^32 bits in the optimised and in the debug-assertion lane (0.6 GiB; not under the sanitizers / interpreters)
+    if (cfg.lane == "rel" || cfg.lane == "dbg") && cfg.rep == 0 {
+        let seed = Rng::derive(cfg.seed, "c08_giant", 0).u64();
+        let desc = J::obj().set("history", "extend_with_zeros(2^32+2^27+333), ~1100 x set, push x3, append_bits, extend(positions); then BitVector::from; collect(positions > 2^32)").set("seed", seed);
+        out.push(Case::new("BitVectorMut", "history|giant (> 2^32 bits)", desc, 1u64 << 33, move |rep: &mut Rep| run_giant_history(rep, seed)));
+    }
+    out
 }
